@@ -6,6 +6,7 @@ package c19
 
 import (
 	"fmt"
+	"strings"
 
 	"verifharness/ref/spsdim"
 	"verifharness/runner"
@@ -21,7 +22,30 @@ var languages = []string{"und", "eng", "sv", "en-US", "zh-Hant-TW", "x-y", longT
 // custom four-character handler types, and the raw handler names CreateHdlr
 // accepts ("mediaOrHdlrType").
 var mediaTypes = []string{"video", "audio", "subtitle", "subtitles", "stpp", "text", "wvtt", "meta", "clcp",
-	"hint", "auxv", "tmcd", "abcd", "vide", "soun", "subt"}
+	"hint", "auxv", "tmcd", "abcd", "vide", "soun", "subt",
+	// custom handler 4CCs that are not lower-case letters only: a four-character code is four
+	// bytes, case and all (ID32 = ID3 metadata, MPsm/sdsm/m7sm/ocsm = MPEG-4 systems streams)
+	"ID32", "MPsm", "m7sm", "Ab1d", "3gpp", "s-1_", "a b ", "TMCD"}
+
+// customAlphabet: characters drawn for random custom handler types (AddEmptyTrack is given
+// exactly these four bytes and the hdlr box has to carry them)
+const customAlphabet = "abcdefghijklmnopqrstuvwxyzABCDEFGHIJKLMNOPQRSTUVWXYZ0123456789 -_.+!#"
+
+// namedMedia: the names CreateHdlr gives a meaning of their own; a random custom type must not
+// be one of them, nor differ from one only by case (what such a spelling means is not fixed by the statement)
+var namedMedia = map[string]bool{"vide": true, "soun": true, "subt": true, "stpp": true, "text": true, "wvtt": true, "meta": true, "clcp": true}
+
+func randomCustomType(r *runner.Rand) string {
+	for {
+		b := make([]byte, 4)
+		for i := range b {
+			b[i] = customAlphabet[r.Intn(len(customAlphabet))]
+		}
+		if !namedMedia[strings.ToLower(string(b))] {
+			return string(b)
+		}
+	}
+}
 
 // values that CreateHdlr rejects (not four characters, not named): the
 // documented outcome is the explicit panic "mediaType ... not supported"
@@ -36,8 +60,9 @@ type descSpec struct {
 	SPS       [][]byte `json:"-"`
 	PPS       [][]byte `json:"-"`
 	SEI       [][]byte `json:"-"`
-	Info      spsdim.Info
-	Src       string // generated | <file>
+	Info      spsdim.Info   // of the first SPS
+	Infos     []spsdim.Info `json:"-"` // of every supplied SPS, in order
+	Src       string        // generated | <file> (+ "+" further sources of appended SPS)
 	// aac
 	ObjType int
 	Freq    int
@@ -175,6 +200,8 @@ func pickMedia(r *runner.Rand) string {
 		return "video"
 	case x < 55:
 		return "audio"
+	case x < 63:
+		return randomCustomType(r)
 	default:
 		return mediaTypes[r.Intn(len(mediaTypes))]
 	}
@@ -197,8 +224,9 @@ func descKindsFor(media string) []string {
 var commonSizes = [][2]int{{176, 144}, {320, 240}, {426, 240}, {640, 360}, {640, 480}, {854, 480}, {960, 540}, {1024, 576}, {1280, 720},
 	{1366, 768}, {1440, 1080}, {1920, 1080}, {1920, 1088}, {2560, 1440}, {3840, 2160}, {4096, 2160}, {7680, 4320}, {16, 16}, {2, 2}, {64, 36}}
 
-func genAVC(r *runner.Rand, profile int) (sps, pps [][]byte, info spsdim.Info) {
-	p := &spsdim.AVCSPS{}
+// genAVCSPS draws the values of one AVC SPS.
+func genAVCSPS(r *runner.Rand, profile int) (p *spsdim.AVCSPS, hi bool) {
+	p = &spsdim.AVCSPS{}
 	if profile == 0 {
 		switch x := r.Intn(100); {
 		case x < 30:
@@ -232,7 +260,7 @@ func genAVC(r *runner.Rand, profile int) (sps, pps [][]byte, info spsdim.Info) {
 		p.BitDepthChromM8 = uint64(r.Intn(7))
 		p.QPPrimeBypass = r.Bool()
 	}
-	hi := spsdim.AVCHighSyntax(p.ProfileIDC)
+	hi = spsdim.AVCHighSyntax(p.ProfileIDC)
 	if hi && r.Chance(1, 6) {
 		p.ScalingMatrix = true
 		p.ScalingSeed = r.Uint64()
@@ -322,21 +350,47 @@ func genAVC(r *runner.Rand, profile int) (sps, pps [][]byte, info spsdim.Info) {
 		}
 		p.CropL, p.CropR, p.CropT, p.CropB = uint64(l), uint64(cropX-l), uint64(t), uint64(cropY-t)
 	}
+	return p, hi
+}
+
+// genAVC draws the parameter sets of one SetAVCDescriptor call: one SPS, or a list of SPS with
+// different ids (a stream that switches between them): a copy with another level, and/or one or
+// two SPS drawn independently (other picture size, cropping, profile, level, chroma format, bit
+// depth). infos[i] is what the reference computes for sps[i].
+func genAVC(r *runner.Rand, profile int) (sps, pps [][]byte, infos []spsdim.Info) {
+	p, hi := genAVCSPS(r, profile)
 	sps = append(sps, p.NAL())
-	info = p.Info()
+	infos = append(infos, p.Info())
+	ids := []uint64{p.SPSID}
 	if r.Chance(1, 6) { // a second SPS with another id
 		q := *p
 		q.SPSID = (p.SPSID + 1) % 32
 		q.LevelIDC = 30
 		sps = append(sps, q.NAL())
+		infos = append(infos, q.Info())
+		ids = append(ids, q.SPSID)
+	}
+	if r.Chance(1, 5) { // further SPS of their own
+		for k, n := 0, r.PickInt(1, 1, 2); k < n; k++ {
+			xprof := 0
+			if r.Bool() {
+				xprof = int(p.ProfileIDC) // same profile, other picture
+			}
+			q, _ := genAVCSPS(r, xprof)
+			q.SPSID = (ids[len(ids)-1] + 1) % 32
+			sps = append(sps, q.NAL())
+			infos = append(infos, q.Info())
+			ids = append(ids, q.SPSID)
+		}
 	}
 	for i, n := 0, 1+r.Intn(3); i < n; i++ {
-		pps = append(pps, spsdim.AVCPPS(uint64(i), p.SPSID, r.Bool(), int64(r.Range(-26, 25)), hi && r.Bool()))
+		pps = append(pps, spsdim.AVCPPS(uint64(i), ids[i%len(ids)], r.Bool(), int64(r.Range(-26, 25)), hi && r.Bool()))
 	}
-	return sps, pps, info
+	return sps, pps, infos
 }
 
-func genHEVC(r *runner.Rand) (vps, sps, pps, sei [][]byte, info spsdim.Info) {
+// genHEVCSPS draws the values of one HEVC SPS.
+func genHEVCSPS(r *runner.Rand) *spsdim.HEVCSPS {
 	p := &spsdim.HEVCSPS{}
 	prof := r.PickInt(1, 1, 2, 2, 4)
 	p.PTL.ProfileIDC = byte(prof)
@@ -439,16 +493,42 @@ func genHEVC(r *runner.Rand) (vps, sps, pps, sei [][]byte, info spsdim.Info) {
 		}
 		p.L, p.R, p.T, p.B = uint64(l), uint64(cropX-l), uint64(t), uint64(cropY-t)
 	}
+	return p
+}
+
+// genHEVC draws the parameter sets of one SetHEVCDescriptor call; like genAVC it may give several
+// SPS (a copy with another id, and/or independently drawn ones, each with a VPS of its own half of
+// the time). infos[i] belongs to sps[i].
+func genHEVC(r *runner.Rand) (vps, sps, pps, sei [][]byte, infos []spsdim.Info) {
+	p := genHEVCSPS(r)
 	sps = append(sps, p.NAL())
-	info = p.Info()
+	infos = append(infos, p.Info())
 	vps = append(vps, spsdim.HEVCVPS(p.VPSID, p.MaxSubLayersM1, p.TemporalNesting, &p.PTL))
+	ids := []uint64{p.SPSID}
 	if r.Chance(1, 8) {
 		q := *p
 		q.SPSID = (p.SPSID + 1) % 16
 		sps = append(sps, q.NAL())
+		infos = append(infos, q.Info())
+		ids = append(ids, q.SPSID)
+	}
+	if r.Chance(1, 5) {
+		for k, n := 0, r.PickInt(1, 1, 2); k < n; k++ {
+			q := genHEVCSPS(r)
+			q.SPSID = (ids[len(ids)-1] + 1) % 16
+			if r.Bool() {
+				q.VPSID = (p.VPSID + uint64(k) + 1) % 16
+				vps = append(vps, spsdim.HEVCVPS(q.VPSID, q.MaxSubLayersM1, q.TemporalNesting, &q.PTL))
+			} else {
+				q.VPSID = p.VPSID
+			}
+			sps = append(sps, q.NAL())
+			infos = append(infos, q.Info())
+			ids = append(ids, q.SPSID)
+		}
 	}
 	for i, n := 0, 1+r.Intn(3); i < n; i++ {
-		pps = append(pps, spsdim.HEVCPPS(uint64(i), p.SPSID, int64(r.Range(-26, 25)), r.Bool()))
+		pps = append(pps, spsdim.HEVCPPS(uint64(i), ids[i%len(ids)], int64(r.Range(-26, 25)), r.Bool()))
 	}
 	for i, n := 0, r.PickInt(0, 0, 1, 1, 2); i < n; i++ {
 		if r.Bool() {
@@ -465,6 +545,40 @@ var wvttConfigs = []string{"", "WEBVTT", "WEBVTT\n", "WEBVTT - a title\n\nNOTE m
 var stppNS = []string{"", "http://www.w3.org/ns/ttml", "http://www.w3.org/ns/ttml http://www.smpte-ra.org/schemas/2052-1/2010/smpte-tt", "urn:x"}
 var stppSchema = []string{"", "", "http://example.com/schema.xsd", "a b c"}
 var stppAux = []string{"", "", "image/png", "image/png application/font-woff"}
+
+// realInfos gives the reference reading of every SPS of a harvested set (nil when the reference
+// reader cannot read one of the further SPS: the oracle then only knows the first).
+func realInfos(s psSet) []spsdim.Info {
+	out := []spsdim.Info{s.info}
+	for _, n := range s.sps[1:] {
+		var in spsdim.Info
+		var err error
+		if s.codec == "avc" {
+			in, err = spsdim.ReadAVC(n)
+		} else {
+			in, err = spsdim.ReadHEVC(n)
+		}
+		if err != nil {
+			return nil
+		}
+		out = append(out, in)
+	}
+	return out
+}
+
+// otherReal picks a harvested set of the codec other than realSets[not].
+func otherReal(r *runner.Rand, codec string, not int) (psSet, bool) {
+	var cand []int
+	for i, s := range realSets {
+		if s.codec == codec && i != not {
+			cand = append(cand, i)
+		}
+	}
+	if len(cand) == 0 {
+		return psSet{}, false
+	}
+	return realSets[cand[r.Intn(len(cand))]], true
+}
 
 func genDesc(r *runner.Rand, media string, pn *pins) descSpec {
 	kinds := descKindsFor(media)
@@ -492,10 +606,21 @@ func genDesc(r *runner.Rand, media string, pn *pins) descSpec {
 			if idx >= 0 {
 				s := realSets[idx]
 				d.SPS, d.PPS, d.Info, d.Src = s.sps, s.pps, s.info, s.src
+				d.Infos = realInfos(s)
+				// the SPS of a second stream (another rendition) appended: one sample entry for both
+				if pn.real < 0 && d.Infos != nil && r.Chance(1, 3) {
+					if o, ok := otherReal(r, "avc", idx); ok {
+						d.SPS = append(append([][]byte(nil), d.SPS...), o.sps[0])
+						d.PPS = append(append([][]byte(nil), d.PPS...), o.pps...)
+						d.Infos = append(d.Infos, o.info)
+						d.Src += "+" + o.src
+					}
+				}
 			}
 		}
 		if d.SPS == nil {
-			d.SPS, d.PPS, d.Info = genAVC(r, pn.profile)
+			d.SPS, d.PPS, d.Infos = genAVC(r, pn.profile)
+			d.Info = d.Infos[0]
 			d.Src = "generated"
 		}
 		d.SDType = r.PickStr("avc1", "avc3")
@@ -519,10 +644,21 @@ func genDesc(r *runner.Rand, media string, pn *pins) descSpec {
 			if idx >= 0 {
 				s := realSets[idx]
 				d.VPS, d.SPS, d.PPS, d.SEI, d.Info, d.Src = s.vps, s.sps, s.pps, s.sei, s.info, s.src
+				d.Infos = realInfos(s)
+				if pn.real < 0 && d.Infos != nil && r.Chance(1, 3) {
+					if o, ok := otherReal(r, "hevc", idx); ok {
+						d.VPS = append(append([][]byte(nil), d.VPS...), o.vps[0])
+						d.SPS = append(append([][]byte(nil), d.SPS...), o.sps[0])
+						d.PPS = append(append([][]byte(nil), d.PPS...), o.pps...)
+						d.Infos = append(d.Infos, o.info)
+						d.Src += "+" + o.src
+					}
+				}
 			}
 		}
 		if d.SPS == nil {
-			d.VPS, d.SPS, d.PPS, d.SEI, d.Info = genHEVC(r)
+			d.VPS, d.SPS, d.PPS, d.SEI, d.Infos = genHEVC(r)
+			d.Info = d.Infos[0]
 			d.Src = "generated"
 		}
 		d.SDType = r.PickStr("hvc1", "hev1")
@@ -632,6 +768,11 @@ func (h *history) describe() map[string]interface{} {
 				m["vps"] = hexList(d.VPS)
 				m["sei"] = hexList(d.SEI)
 			}
+			var sizes []string
+			for _, in := range d.Infos {
+				sizes = append(sizes, fmt.Sprintf("%dx%d profile=%d/%d level=%d/%d", in.Width, in.Height, in.ProfileIDC, in.HProfileIDC, in.LevelIDC, in.HLevelIDC))
+			}
+			m["perSPS"] = sizes
 			m["expect"] = fmt.Sprintf("%dx%d chroma=%d depth=%d/%d profile=%d/%d", d.Info.Width, d.Info.Height, d.Info.ChromaFormat, d.Info.BitDepthLuma, d.Info.BitDepthChroma, d.Info.ProfileIDC, d.Info.HProfileIDC)
 		case "aac":
 			m["objType"], m["freq"] = d.ObjType, d.Freq
